@@ -237,6 +237,28 @@ CHECKS = [
      "np.trapezoid / np.searchsorted by documented meaning; float rounding of the trapezoid sum within 1e-9; limits equal to "
      "the double nearest k/N are sent to the model as k/N.",
      "Lean 4 proof about a hand-written model + differential correspondence check", "DESIGN.md §5 C07"),
+ chk("C11",
+     "Lean theorems, for EVERY script of RNG answers lying in the supports of the requested distributions (Req.inRange) and "
+     "long enough: C11_flags, C11_subset (smoothing off), C11_inv / C11_metrics (sample arrays sorted, incl. the is_sorted=True "
+     "fast path of single-pass sampling: gathering a sorted array by repeat(arange(k), counts) is sorted; hence cm = counting "
+     "by C01), C11_total (replacement keeps nb_all_samples), C11_strata (by_label: replacement keeps all four strata, "
+     "single-pass the easy strata), C11_at_least_one (replacement via the class-size and hard-sample corrections - no side "
+     "condition beyond in-support answers is needed -, single-pass via the forced index, proportion via max(.,1)), "
+     "C11_proportion (+_feasible: max(floor(ratio*n),1) scored samples without replacement, multiplicities bounded by the "
+     "source's, floor(ratio*easy) easy samples), C11_dynamic (+_requests: switch exactly at 100 scored samples per class and on "
+     "smoothing), C11_reachable (the identity script selects every source score once), C11_mean / C11_mean_identities (the "
+     "issued requests satisfy the unbiasedness relations: class split Bin(N, nb_all_pos/N), easy splits with the class's easy "
+     "ratio and class sizes adding to N, multiplicities size=k with n*p*k=n resp. lam*k=n, replacement draws from range(k)), "
+     "C11_spec (the executable clauses hold of the model). Tied to /repo by running the real bootstrap_sample under a scripted "
+     "RNG (np.random.binomial/poisson/choice/normal patched; realistic and adversarial in-support answers), feeding the same "
+     "answers to the model, comparing request traces exactly (p/lam 1e-12) and samples exactly, and evaluating the Lean spec "
+     "predicates on the implementation's own samples and request parameters; plus runs with the real global RNG under "
+     "np.random.seed (structural clauses, byte-for-byte reproducibility), callable samplers, error branches, source unchanged.",
+     BASE_NOTE + "That NumPy's primitives answer inside the textbook supports with the textbook means is assumed, not proved "
+     "('unbiased' is proved as parameter algebra, C11_mean); the smoothing noise is not modelled (only flags, sizes, strata, "
+     "ordering with smoothing); the float product ratio*n is an oracle checked to be a faithful rounding; callable samplers are "
+     "checked in the harness only. Open known finding: smoothing raises ValueError('scale < 0') when a resampled class has IQR -0.0.",
+     "Lean 4 proof about a hand-written model with a scripted RNG + differential correspondence check", "DESIGN.md §5 C11"),
 ]
 
 ALL = [f"C{i:02d}" for i in range(1, 21)]
